@@ -1321,12 +1321,15 @@ class Router:
             self._ls_retransmit, args=[sought_gn_addr]
         )
         timer.daemon = True
-        timer.start()
+        # Register the timer before it can expire: an expiry that slipped in between
+        # start() and the registration re-armed a newer timer, which the late
+        # registration then cancelled - leaving the buffered requests without any timer.
         with self._ls_lock:
             old = self._ls_timers.pop(sought_gn_addr, None)
             if old:
                 old.cancel()
             self._ls_timers[sought_gn_addr] = timer
+        timer.start()
 
     def _ls_retransmit(self, sought_gn_addr: GNAddress) -> None:
         """
@@ -1358,9 +1361,9 @@ class Router:
             self._ls_retransmit, args=[sought_gn_addr]
         )
         timer.daemon = True
-        timer.start()
         with self._ls_lock:
             self._ls_timers[sought_gn_addr] = timer
+        timer.start()
 
     def gn_data_indicate_ls_request(
         self, packet: bytes, common_header: CommonHeader, basic_header: BasicHeader
